@@ -205,7 +205,25 @@ def r18_3(ctx, R):
             val = fl.operand_expr(t["args"][1])
             if val[0] == "call" and any(val[3] == rbb for rbb, _ in removes):
                 pushes.append(bb)
-        ctx.ob("R18.3", b, "has-remove-and-push-back", bool(removes) and len(pushes) >= 2, d_loc(b), "remove %d push-back %d" % (len(removes), len(pushes)))
+        def guarded_not_last(rbb):
+            """remove dominated by the true edge of `cursor + 1 < groups.len()` (the removed group is not the last one)."""
+            for sb in range(b.n):
+                for tgt, labs in fl.edge_labels(sb).items():
+                    for lab in labs:
+                        if lab[0] == "bool" and lab[2] is True and lab[1][0] == "binop" and lab[1][1] == "Lt" and b.dominates(tgt, rbb) and len(b.pred[tgt]) == 1:
+                            l_, r_ = lab[1][2], lab[1][3]
+                            if l_[0] == "proj" and l_[2] == (".0",):
+                                l_ = l_[1]
+                            plus1 = l_[0] == "binop" and l_[1].startswith("Add") and l_[3][0] == "const" and l_[3][2] == "1"
+                            is_len = r_[0] == "call" and re.search(r"Vec::<.*>::len$", r_[1] or "") is not None
+                            if plus1 and is_len:
+                                return True
+            return False
+        all_guarded = bool(removes) and all(guarded_not_last(rbb) for rbb, _ in removes)
+        ctx.ob("R18.3", b, "has-remove-and-push-back", bool(removes) and (len(pushes) >= 2 or all_guarded), d_loc(b),
+               "remove %d push-back %d; every removal guarded by 'not the last group': %s" % (len(removes), len(pushes), all_guarded))
+        if all_guarded:
+            continue
         for rbb, rt in removes:
             k = 0
             for sb in range(b.n):
